@@ -11,7 +11,7 @@ import (
 func init() {
 	register(stream{
 		name: "policy",
-		rule: "every policy of one statement of depth ≤ 2 built from 5 comparison operators × 5 selectors × 4 literals, like × 2 selectors × 3 patterns, not, binary and/or (both operand orders), all/any over a list selector — each against 16 data trees; every ordered pair of 28 boundary numbers (floats incl. ±MaxFloat64, denormals, NaN, ±Inf, ±0; ints up to the int64 limits) under each of the five comparison operators (maps with present/missing/optional/null fields, ints, floats incl. NaN/±Inf/−0, strings, lists of maps, empty collections, boundary integers ±(2^53−1)), together with the negated statement (so that the four-valued result is observable through Match/PartialMatch); plus grammar-random policies of depth ≤ 4 with 1–3 statements, each also in a randomly permuted form, against random trees. Non-trivial = the statement has a connective/quantifier/negation or a selector that does not resolve. Distinct = distinct protocol lines.",
+		rule: "every policy of one statement of depth ≤ 2 built from 5 comparison operators × 5 selectors × 4 literals, like × 2 selectors × 3 patterns, not, binary and/or (both operand orders), all/any over a list selector — each against 16 data trees; every ordered pair of 28 boundary numbers (floats incl. ±MaxFloat64, denormals, NaN, ±Inf, ±0; ints up to the int64 limits) under each of the five comparison operators (maps with present/missing/optional/null fields, ints, floats incl. NaN/±Inf/−0, strings, lists of maps, empty collections, boundary integers ±(2^53−1)), together with the negated statement (so that the four-valued result is observable through Match/PartialMatch); plus grammar-random policies of depth ≤ 4 with 1–3 statements, each also in a randomly permuted form, against random trees. Added later: every policy object is also evaluated after it was used on 17 other data values, as an equal object decoded from its IPLD form that sees the other data first, and as decoded from IPLD (identical matching); overlapping slices of one policy (p[:n-1], p[1:]) answer the same before and after p is matched and p prints the same; selectors with a failing required segment before an optional last one, optional iterators on non-lists, explicit nulls under optional selectors; integer neighbours beyond 2^53. Non-trivial = the statement has a connective/quantifier/negation or a selector that does not resolve. Distinct = distinct protocol lines.",
 		run:  runPolicyStream,
 		eval: evalPolicy,
 	})
